@@ -154,7 +154,7 @@ pub(crate) fn run(seed: u64, n: u64, out: &mut Out) {
             let is_lock = rng.chance(1, 2);
             let base = rng.pick(&w.pool).clone();
             let mut args: Vec<u8> = base.args().raw_data().to_vec();
-            match rng.below(12) { 0 if !args.is_empty() => { args.pop(); } 1 => args.push(0), 2 => args.push(0xff), 3 => args.clear(), _ => {} }
+            match rng.below(12) { 0 | 4 | 5 if !args.is_empty() => { args.pop(); } 1 => args.push(0), 2 => args.push(0xff), 3 | 6 => args.clear(), _ => {} }
             let search = packed::Script::new_builder().code_hash(base.code_hash()).hash_type(base.hash_type()).args(Bytes::from(args.clone()).pack()).build();
             let raw = extract_raw_data(&search);
             let asc = rng.chance(1, 2);
@@ -171,7 +171,8 @@ pub(crate) fn run(seed: u64, n: u64, out: &mut Out) {
             let kind = rng.below(4); // 0 cells, 1 txs ungrouped, 2 txs grouped, 3 capacity
             let f_data = if with_filter { if kind == 3 && rng.chance(1, 2) { let a = rng.range(0, 9); Some([a, a + rng.range(1, 6)]) } else { rr(&mut rng, 9) } } else { None };
             let f_cap = if with_filter { match rng.below(3) { 0 => Some([0u64, 1000]), 1 => Some([1000, 6_100_000_001]), _ => None } } else { None };
-            let f_block = if with_filter { rr(&mut rng, 10) } else { None };
+            // block ranges often: with a prefix search over several scripts the keys are NOT ordered by block number
+            let f_block = if with_filter { match rng.below(3) { 0 => None, 1 => rr(&mut rng, 10), _ => { let a = rng.range(0, 8); Some([a, a + rng.range(1, 6)]) } } } else { None };
             let tag: u8 = match (kind, is_lock) { (0, true) | (3, true) => 32, (0, false) | (3, false) => 64, (_, true) => 96, (_, false) => 128 };
             let mk_key = |cursor_filter: bool| -> SearchKey {
                 let filter = if with_filter {
